@@ -86,11 +86,11 @@ macro_rules! moves_family {
             }
             o
         });
-        match r { Ok(o) => outs = o, Err(p) => $rep.mismatch(json!({"prop": "C14", "ty": fam, "op": kind, "what": "panic", "panic": p, "case": $c})) }
+        match r { Ok(o) => outs = o, Err(p) => $rep.mismatch(json!({"prop": prop_name("C14"), "ty": fam, "op": kind, "what": "panic", "panic": p, "case": $c})) }
         for (what, g) in outs {
             $rep.evals += 1;
             if g != exp {
-                $rep.mismatch(json!({"prop": "C14", "ty": fam, "op": what, "exp": $c["exp"], "got_bits": g.iter().map(|x| format!("{:#x}", x)).collect::<Vec<_>>(), "case": $c}));
+                $rep.mismatch(json!({"prop": prop_name("C14"), "ty": fam, "op": what, "exp": $c["exp"], "got_bits": g.iter().map(|x| format!("{:#x}", x)).collect::<Vec<_>>(), "case": $c}));
             }
         }
     }};
@@ -144,7 +144,7 @@ fn run_move(rep: &mut Report, c: &Value) {
     for (what, g) in o {
         rep.evals += 1;
         if g != exp {
-            rep.mismatch(json!({"prop": "C14", "ty": "Vec3A/Quat", "op": what, "exp": c["exp"], "got_bits": g.iter().map(|x| format!("{:#x}", x)).collect::<Vec<_>>(), "case": c}));
+            rep.mismatch(json!({"prop": prop_name("C14"), "ty": "Vec3A/Quat", "op": what, "exp": c["exp"], "got_bits": g.iter().map(|x| format!("{:#x}", x)).collect::<Vec<_>>(), "case": c}));
         }
     }
 }
@@ -229,7 +229,7 @@ fn main() {
                     }
                 };
                 if let Some(b) = bad {
-                    rep.mismatch(json!({"prop": "C14", "ty": dty, "src_ty": sty, "op": format!("{how}:{sty}->{dty}"), "rot": r,
+                    rep.mismatch(json!({"prop": prop_name("C14"), "ty": dty, "src_ty": sty, "op": format!("{how}:{sty}->{dty}"), "rot": r,
                         "src": idx.iter().map(|i| c["src"][*i].clone()).collect::<Vec<_>>(), "what": b, "case": c}));
                 }
                 // TryFrom: each lane alone in each position, the others zero (which always fits)
@@ -247,7 +247,7 @@ fn main() {
                                 _ => false,
                             };
                             if !ok {
-                                rep.mismatch(json!({"prop": "C14", "ty": dty, "src_ty": sty, "op": format!("try:{sty}->{dty}"),
+                                rep.mismatch(json!({"prop": prop_name("C14"), "ty": dty, "src_ty": sty, "op": format!("try:{sty}->{dty}"),
                                     "what": format!("value of lane {l} alone in position {p}: fits={} got={:?}", fits[l], g), "src": c["src"][l], "case": c}));
                             }
                         }
